@@ -21,7 +21,8 @@ MODULE = 'vgen.keys'
 
 # --------------------------------------------------------------------------- value menus
 LIT = {'None': None, 'True': True, 'False': False}
-ATOM_STRINGS = ['', 'a', 'b', '1', 'None', 'True', "a', 'b", "'", "a###b='c", 'x$$$y', '[1]', 'a"b', 'a\\b', '{A}']
+ATOM_STRINGS = ['', 'a', 'b', '1', 'None', 'True', "a', 'b", "'", "a###b='c", 'x$$$y', '[1]', 'a"b', 'a\\b', '{A}',
+                'long' * 300 + 'A', 'long' * 300 + 'B']
 ATOM_INTS = [0, 1, -1, 10]
 ATOM_FLOATS = ['1.0', '0.5', '-0.0', '1e+16', '0.0001234567', '0.0001234568', '0.9999995', '0.9999999']
 SMALL = [('lit', 'None'), ('int', 1), ('str', 'a'), ('str', "a', 'b"), ('str', 'b')]
@@ -51,6 +52,11 @@ OBJECTS = (
        ('inst', ('KPlain', [('str', 'p')], [('k', ('list', [('int', 1)]))])),
        ('inst', ('KPlain', [], [('k', ('int', 1)), ('j', ('int', 1))]))]
 )
+NESTED = [
+    ('list', [('auto', ('KAuto', [('a', ('int', 1)), ('b', ('int', 2))]))]),
+    ('list', [('auto', ('KAuto', [('a', ('int', 1)), ('b', ('int', 3))])), ('int', 1)]),
+    ('dict', [('a', ('auto', ('KAuto', [('a', ('str', 'p')), ('b', ('int', 2))])))]),
+]
 RSTRS = [('rstr', '{A}/x'), ('rstr', 'pre{A}{B}'), ('rstr', '{B}')]
 
 
@@ -90,7 +96,7 @@ def universe(depth):
     full = ([('lit', k) for k in LIT] + [('int', i) for i in ATOM_INTS] + [('flt', f) for f in ATOM_FLOATS]
             + [('str', s) for s in ATOM_STRINGS])
     vals = list(SMALL) + _containers(SMALL) + [a for a in full if a not in SMALL]
-    vals += RSTRS + OBJECTS
+    vals += RSTRS + OBJECTS + NESTED
     seen0 = {repr(v) for v in vals}
     vals += [c for c in _containers(full) if repr(c) not in seen0]
     if depth >= 2:
@@ -174,10 +180,11 @@ SPECS = [
          pulls=['a', 'a2'], input_kinds={'a': 'json', 'a2': 'json'}),
     dict(slug='f', cls_name='KfTask', kind='json',
          params=[dict(name='z', default=1, dpd=True), dict(name='v', default=0, ignore=True)], run_params=['z', 'v']),
+    dict(slug='h', cls_name='KhTask', kind='json', params=[dict(name='s', dtype='str')], run_params=['s']),
     dict(slug='m', cls_name='KmTask', kind='mem', inputs=[dict(ref='a', how='class')], pulls=['a'], input_kinds={'a': 'json'}),
     dict(slug='n', cls_name='KnTask', kind='json', inputs=[dict(ref='m', how='class')], pulls=['m'], input_kinds={'m': 'mem'}),
 ]
-TASKNAME = {'a': 'a', 'a2': 'a2', 'b': 'g:b', 'c': 'h:g:c', 'd': 'd', 'e': 'e', 'f': 'f', 'm': 'm', 'n': 'n'}
+TASKNAME = {'a': 'a', 'a2': 'a2', 'b': 'g:b', 'c': 'h:g:c', 'd': 'd', 'e': 'e', 'f': 'f', 'h': 'h', 'm': 'm', 'n': 'n'}
 
 
 def module():
@@ -209,7 +216,7 @@ def module():
     return mod
 
 
-STRINGS = [f'{MODULE}.K{t}Task' for t in ('a', 'b', 'c', 'd', 'a2', 'e', 'f', 'm', 'n')]
+STRINGS = [f'{MODULE}.K{t}Task' for t in ('a', 'b', 'c', 'd', 'a2', 'e', 'f', 'h', 'm', 'n')]
 
 
 def realise(variant, x, yv, zv, base, work, rng, global_vars=None):
@@ -219,7 +226,7 @@ def realise(variant, x, yv, zv, base, work, rng, global_vars=None):
     from taskchain import Config
 
     work.mkdir(parents=True, exist_ok=True)
-    vals = {'x': x}
+    vals = {'x': x, 's': '{A}/s'}
     if yv != 5 or rng.random() < 0.5:
         vals['y'] = yv
     if zv != 1 or rng.random() < 0.5:
@@ -348,7 +355,7 @@ def observe(job):
 
         # (1) translation check spec <-> code on the representation text (plain JSON-like values only:
         #     objects and placeholder strings get their representation inside a config)
-        plain = case['va']['t'] not in ('auto', 'inst', 'rstr')
+        plain = case['va']['t'] not in ('auto', 'inst', 'rstr') and '"class"' not in json.dumps(x)
         code_repr = repr_from_instantiation(x) if plain else case['repr']
         if code_repr != case['repr']:
             bad.append(('scheme', f'repr:{case["repr"][:50]}',
